@@ -149,7 +149,12 @@ func (fr *Frame) call(st *State, cc *ssa.CallCommon, pos token.Pos) (*Val, *Stat
 	}
 	var args []*Val
 	if cc.IsInvoke() {
-		args = append(args, fr.val(st, cc.Value))
+		recv := fr.val(st, cc.Value)
+		args = append(args, recv)
+		// a method call on a nil interface value panics: execution continues past the call only with a non-nil receiver
+		if recv.K == KIface && recv.X != nil && !fr.Safety {
+			st.R = And(st.R, Neq(recv.X, Num(0)))
+		}
 	}
 	for _, a := range cc.Args {
 		args = append(args, fr.val(st, a))
@@ -954,6 +959,9 @@ func (c *Ctx) scanWrites(blocks []*ssa.BasicBlock, w *writeSet, depth int, seen 
 			// (no early exit when w.all is set: the local cells written by the remaining instructions must still be found)
 			switch x := ins.(type) {
 			case *ssa.Store:
+				if al, ok := x.Addr.(*ssa.Alloc); ok && loopSharedArray(al) {
+					w.add("S:"+tstr(under(al.Type().(*types.Pointer).Elem()).(*types.Array).Elem()), false)
+				}
 				p, fresh, cell, ok := addrPrefix(x.Addr, inBody)
 				if !ok {
 					w.all = true
